@@ -105,6 +105,15 @@ func runRow(c *rowCase) (what, detail string) {
 	switch op {
 	case "Union":
 		res = a.Union(b)
+	case "Union3":
+		c3, c3cols, err := buildRow(c.Shape, st.Ints("cseg"), pairs(st["cbits"]))
+		if err != nil {
+			return "harness", err.Error()
+		}
+		res = a.Union(b, c3)
+		if got := c3.Columns(); !sameCols(got, c3cols) {
+			return "operand_changed", fmt.Sprintf("Union3: third operand now has columns %v, want %v", got, c3cols)
+		}
 	case "Merge":
 		a.Merge(b)
 		res = a
